@@ -355,6 +355,15 @@ class C18(Check):
             for (d2, mm) in pool:
                 if d2.get_length() != len(mm.recs):
                     ctx.violate("length_consistent", sig, "get_length() %d, reference model %d" % (d2.get_length(), len(mm.recs)))
+                # every live set - not only the one just operated on - must still hold its samples with their labels, in order:
+                # this is where aliasing between a set and the sets derived from it shows up
+                X2, y2 = self.snapshot(d2)
+                if len(mm.recs):
+                    M = np.array([r.cur for r in mm.recs])
+                    L = np.array([r.label for r in mm.recs])
+                    if X2.shape != M.shape or not np.all(np.abs(X2 - M) <= 1e-7 * (1.0 + np.abs(M))) or not np.array_equal(np.asarray(y2).astype(int), L):
+                        ctx.violate("other_sets_untouched", dict(sig, op=k), "after %s on one set, another live set no longer holds its (sample,label) pairs in order: labels %s vs model %s" % (
+                            k, np.asarray(y2).astype(int).tolist()[:12], L.tolist()[:12]))
             ctx.state(tuple(sorted((tuple(sorted(mm.multiset().items())), mm.scaled) for _, mm in pool)))
 
     def degenerate(self, m, dim):
